@@ -34,7 +34,7 @@ class C01(spec.Spec):
                 text, d2 = self.roundtrip(doc, o)
             except Exception as e:
                 out.outcomes["exception"] += 1
-                out.violation("%s-roundtrip-exception" % self.fmt, type(e).__name__,
+                out.violation("%s-roundtrip-exception" % self.fmt, type(e).__name__ + observe.input_class(doc),
                               {"error": "%s: %s" % (type(e).__name__, e), "options": o, "where": where},
                               hist, extra)
                 continue
@@ -44,7 +44,7 @@ class C01(spec.Spec):
             else:
                 out.outcomes["different"] += 1
                 kinds = observe.classify_diff(want, got)
-                out.violation("%s-roundtrip-content" % self.fmt, ",".join(kinds),
+                out.violation("%s-roundtrip-content" % self.fmt, ",".join(kinds) + observe.input_class(doc),
                               {"diff": observe.diff_obs(want, got), "options": o, "where": where,
                                "text": text if len(text) < 3000 else text[:3000] + "..."},
                               hist, extra)
